@@ -97,7 +97,7 @@ type Chan struct {
 	// overwritten when the next Recv begins.
 	ReuseRecv bool
 	rframe    []byte
-	frame   []byte
+	frame     []byte
 
 	sendIn, recvIn, closeIn atomic.Int32
 	nSend, nRecv, nClose    atomic.Int32
